@@ -63,7 +63,9 @@ extern "C" int __real_aws_mutex_lock(struct aws_mutex *);
 extern "C" int __real_aws_mutex_unlock(struct aws_mutex *);
 
 static void page_point() {
-    if (!ds::active() || ds::self() < 0) return;
+    // VERIF_C03_NO_PAGE_POINTS=1 removes these two decision points (used once to show which mutants they make visible)
+    static const bool off = getenv("VERIF_C03_NO_PAGE_POINTS") != nullptr;
+    if (off || !ds::active() || ds::self() < 0) return;
     uint64_t s0 = ds::stats().switches;
     ds::point();
     if (W && ds::stats().switches != s0) {
